@@ -61,8 +61,6 @@ Definition sv_packet (c : cfg) (own : pv) (sv : sview) (p : spkt) : pstep :=
   | SOther => mkPS sv (Some []) true
   end.
 
-Definition opt_app {A} (a b : option (list A)) : option (list A) :=
-  match a, b with Some x, Some y => Some (x ++ y) | _, _ => None end.
 
 (* the packets of a connect() wait window, classified along the MODEL's reassembly state *)
 Fixpoint sv_window (c : cfg) (s : cli) (sv : sview) (w : list (pv * jtable))
@@ -100,8 +98,6 @@ Definition ends_ret (l : list eff) : bool :=
 Definition ends_raise (x : exn) (l : list eff) : bool :=
   match last_eff l with Some (Raised y) => exn_eqb x y | _ => false end.
 
-Definition fold_opt {A} (f : A -> option (list (N * list pv))) (l : list A) : option (list (N * list pv)) :=
-  fold_right (fun a acc => opt_app (f a) acc) (Some []) l.
 
 (* finite-map equality of the namespace tables *)
 Definition nsmap_eqb (a b : list (str * pv)) : bool :=
